@@ -507,6 +507,9 @@ func (e *Exec) callBuiltin(fr *frame, b *ssa.Builtin, args []Value, instr *ssa.C
 		}
 		return nil
 	}
+	if len(args) == 0 {
+		panic(unsupported("builtin %s without arguments", b.Name()))
+	}
 	panic(unsupported("builtin %s on %T", b.Name(), args[0]))
 }
 
